@@ -113,15 +113,6 @@ theorem cinv_stepFanOut (c : Ctl) (h : CInv c) (m : String) (fails : List String
     · exact hc
     · exact cinv_ioFail _ hc _
 
-theorem cinv_stepWrite (c : Ctl) (h : CInv c) (off len : Nat) (fails : List String) :
-    CInv (c.stepWrite off len fails).1 := by
-  unfold stepWrite
-  split
-  · exact h
-  · split
-    · exact h
-    · exact cinv_stepFanOut c h _ fails
-
 theorem cinv_stepSync (c : Ctl) (h : CInv c) (m : String) (fails : List String) :
     CInv (c.stepSync m fails).1 := by
   unfold stepSync
@@ -130,8 +121,8 @@ theorem cinv_stepSync (c : Ctl) (h : CInv c) (m : String) (fails : List String) 
   · exact cinv_stepFanOut c h m fails
 
 theorem cinv_readCalls (c : Ctl) (h : CInv c) (tried : List (String × Out)) :
-    CInv (tried.foldl (fun c t => match c.readers.find? (fun r => r.1 = t.1) with
-                                    | some r => c.call r.2 "ReadAt" | none => c) c) := by
+    CInv (c.readCalls tried) := by
+  unfold readCalls
   induction tried generalizing c with
   | nil => exact h
   | cons t ts ih =>
@@ -141,6 +132,27 @@ theorem cinv_readCalls (c : Ctl) (h : CInv c) (tried : List (String × Out)) :
     split
     · exact cinv_call c h _ _
     · exact h
+
+theorem cinv_stepWrite (c : Ctl) (h : CInv c) (off len : Nat) (fails : List String) (tried : List (String × Out)) :
+    CInv (c.stepWrite off len fails tried).1 := by
+  unfold stepWrite
+  simp only
+  split
+  · exact h
+  · split
+    · exact h
+    · split
+      · split
+        · exact h
+        · have hc := cinv_readCalls c h tried
+          split
+          · split
+            · exact cinv_stepFanOut _ hc _ fails
+            · exact hc
+          · split
+            · exact cinv_stepFanOut _ (cinv_ioFail _ hc _) _ fails
+            · exact cinv_ioFail _ hc _
+      · exact cinv_stepFanOut c h _ fails
 
 theorem cinv_stepRead (c : Ctl) (h : CInv c) (off len : Nat) (tried : List (String × Out)) :
     CInv (c.stepRead off len tried).1 := by
